@@ -37,7 +37,7 @@ ALL_FEATURES = {
     "str_enum", "int_enum", "object", "closed_object", "addl_schema", "map", "array", "set", "tuple", "fixed_array",
     "nullable_type", "nullable_oneof", "nullable_anyof_ref", "ref", "recursion",
     "oneof_external", "oneof_internal", "oneof_adjacent", "oneof_untagged", "anyof_exclusive", "allof_objects",
-    "rename", "defaults",
+    "rename", "defaults", "oneof_optional_const",
 }
 
 
@@ -105,6 +105,12 @@ class Gen:
             self.tag("str_format")
         else:
             self.tag("string")
+        return s
+
+    def scalar_nonnull(self):
+        s = self.scalar()
+        while s.get("type") == "null":
+            s = self.scalar()
         return s
 
     def str_enum(self):
@@ -235,12 +241,21 @@ class Gen:
     def union(self, names, depth):
         r = self.rnd
         opts = [f for f in ("oneof_external", "oneof_internal", "oneof_adjacent", "oneof_untagged", "anyof_exclusive",
-                            "allof_objects", "nullable_anyof_ref") if self.has(f)]
+                            "allof_objects", "nullable_anyof_ref", "oneof_optional_const") if self.has(f)]
         if not opts:
             return self.obj(names, depth)
         k = self.pick(opts)
         self.tag(k)
         vn = r.sample(["A", "bee", "C-c", "dee_e", "Eff", "gee"], r.randrange(2, 4))
+        if k == "oneof_optional_const":
+            # closed object branches sharing an OPTIONAL fixed-value member, told apart by a required member
+            subs = []
+            for n, v in enumerate(vn):
+                req = "m%d_%s" % (n, self.pick(["len", "size", "val"]))
+                subs.append({"type": "object",
+                             "properties": {"kind": {"type": "string", "enum": [v]}, req: self.scalar_nonnull()},
+                             "required": [req], "additionalProperties": False})
+            return {"oneOf": subs}
         if k == "oneof_external":
             subs = []
             simple = [v for v in vn if r.random() < 0.4]
